@@ -20,7 +20,7 @@ class _Rule:
     name = "zz.stub"
 
 
-def _file(c, K, shape):
+def _file(c, K, shape, J=0):
     """Symbolic source: K newlines at symbolic positions, raw slices of the given type shape with symbolic bounds."""
     tb.len = sym_len
     n = c.declare("n", z3.Int("n"))
@@ -31,7 +31,13 @@ def _file(c, K, shape):
         c.assume(z3.And(p > prev, p < n))
         prev = p
         ps.append(p)
-    src = NLStr(n, [SymInt(p) for p in ps])
+    qs, prev = [], -1
+    for j in range(J):   # characters str.splitlines() treats as line boundaries but which are not newlines (form feed...)
+        q = c.declare(f"q{j}", z3.Int(f"q{j}"))
+        c.assume(z3.And(q > prev, q < n, *[q != p for p in ps]))
+        prev = q
+        qs.append(q)
+    src = NLStr(n, [SymInt(p) for p in ps], [SymInt(q) for q in qs])
     tf = TemplatedFile.__new__(TemplatedFile)
     tf.source_str = src
     tf.templated_str = src
@@ -91,10 +97,10 @@ def _check_dict(d, ps, n, start=None, end=None):
 EDIT_TYPES = ["delete", "replace", "create_before", "create_after", "replace_source_only"]
 
 
-def make(K, shape, n_fixes, err_kind):
+def make(K, shape, n_fixes, err_kind, J=0):
     def factory(excluded=frozenset()):
         def harness(c):
-            tf, n, ps = _file(c, K, shape)
+            tf, n, ps = _file(c, K, shape, J)
             pm, a, b = _marker(c, tf, n, "seg")
             seg = RawSegment("x", pos_marker=pm)
             fixes, fix_expect = [], []
@@ -140,13 +146,14 @@ def make(K, shape, n_fixes, err_kind):
     return factory
 
 
-def replay(K, shape, n_fixes, err_kind):
+def replay(K, shape, n_fixes, err_kind, J=0):
     def rp(cex):
         if "len" in vars(tb):
             del tb.len
         n = int(cex["n"])
         ps = [int(cex[f"p{i}"]) for i in range(K)]
-        text = "".join("\n" if i in ps else "x" for i in range(n))
+        qs = [int(cex[f"q{j}"]) for j in range(J)]
+        text = "".join("\n" if i in ps else "\x0c" if i in qs else "x" for i in range(n))
         tf = TemplatedFile.from_string(text)
         raw, pos = [], 0
         for i, t in enumerate(shape):
@@ -218,12 +225,13 @@ def units(tier, seed):
         cfg = [(K, sh, nf, "lint") for K in (0, 1, 3, 5) for sh in ("L", "LTL") for nf in (1, 2)] + \
               [(4, "LTL", 0, "parse"), (6, "L", 0, "base"), (2, "TLT", 1, "lint")]
     us = []
-    for K, sh, nf, kind in cfg:
+    cfg = [x + (0,) for x in cfg] + [(1, "L", 0, "base", 1), (1, "L", 1, "lint", 1)]
+    for K, sh, nf, kind, J in cfg:
         us.append(Unit(
-            name=f"c23.positions[K={K},{sh},{nf}fix,{kind}]", functions=FUNCS,
-            bounds={"source_newlines": K, "raw_slice_types": sh, "fixes_per_violation": nf, "error_class": kind,
-                    "text_length/offsets": "unbounded"},
-            make=make(K, sh, nf, kind), replay=replay(K, sh, nf, kind),
+            name=f"c23.positions[K={K},{sh},{nf}fix,{kind}" + (f",+{J} non-LF line break]" if J else "]"), functions=FUNCS,
+            bounds={"source_newlines": K, "other line-break characters": J, "raw_slice_types": sh, "fixes_per_violation": nf,
+                    "error_class": kind, "text_length/offsets": "unbounded"},
+            make=make(K, sh, nf, kind, J), replay=replay(K, sh, nf, kind, J),
             stubs=["source text = NLStr (length + newline positions)", "rule object = stub with code/name",
                    "segments = real RawSegment with symbolic PositionMarker"],
             assumptions=["anchors' source slices satisfy 0<=start<=stop<=len(source) (established by C01)"],
